@@ -71,9 +71,10 @@ theorem C02_flag (ss : List (List Node)) (dataFlag : Nat) (h : compressible ss =
 
 /-- **one value function**: the compressed decoder (`bufr_descriptor_set_bitsvalue`) and the
 uncompressed one (`bufr_get_desc_value`) turn the same raw bits of a code table, flag table or
-integer element into the same value (class 31 aside, where nothing is ever missing) -/
+integer element into the same value — class 31 included, where all ones is a count and never a
+missing value (the element reference of class 31 being 0, as in every table) -/
 theorem C02_same_value_function (n : Node) (raw : Nat) (hs : n.flags.skipped = false)
-    (hx : Desc.x n.desc ≠ 31 ∧ n.desc ≠ 31000)
+    (hx : Desc.x n.desc = 31 → n.enc.ref = 0)
     (ht : n.enc.type = .codetable ∨ n.enc.type = .flagtable ∨
       (n.enc.type = .numeric ∧ ∃ v, (mkvalNode n).val = .i32 v ∨ (mkvalNode n).val = .i64 v)) :
     (setBitsValue n raw).val = valueOfBits (mkvalNode n) (mkvalNode n).val raw := by
@@ -81,14 +82,17 @@ theorem C02_same_value_function (n : Node) (raw : Nat) (hs : n.flags.skipped = f
   have hd := (mkvalNode_enc n).2
   unfold setBitsValue valueOfBits
   simp only [hs, Bool.false_eq_true, if_false, he, hd]
-  have h31 : ¬ (n.desc = 31000 ∧ n.enc.nbits = 1) := fun h => hx.2 h.1
   rcases ht with h | h | ⟨h, v, hv | hv⟩
-  · simp [h, h31]
-  · simp [h, h31]
-  · simp only [h, hv, h31]
-    by_cases hm : raw = missingIvalue n.enc.nbits <;> simp [hm, hx.1]
-  · simp only [h, hv, h31]
-    by_cases hm : raw = missingIvalue n.enc.nbits <;> simp [hm, hx.1]
+  · simp [h]
+  · simp [h]
+  · simp only [h, hv]
+    by_cases hm : raw = missingIvalue n.enc.nbits <;> by_cases h31 : Desc.x n.desc = 31 <;> simp [hm, h31, hx]
+  · simp only [h, hv]
+    by_cases hm : raw = missingIvalue n.enc.nbits <;> by_cases h31 : Desc.x n.desc = 31 <;> simp [hm, h31, hx]
+
+/-- the delayed replication factor 0 31 001 holding 255 in compressed data is the count 255 (before the repair
+`bufr_descriptor_set_bitsvalue` made it the missing value and the decoder expanded nothing) -/
+example : (setBitsValue { desc := 31001, enc := { type := .numeric, nbits := 8 } } 255).val.getInt64 = 255 := by decide
 
 
 /-- **associated-field column round trip** (whole dataset): every subset gets its own associated
